@@ -89,6 +89,7 @@ static int loop_start(m_ctx_t *c, int max_events) {
 
 static uint8_t loop_stop(m_ctx_t *c) {
     c->state = M_CTX_IDLE;
+    c->receiving = true;
     
     /*
      * A callback run by the flush below may deregister the last module,
@@ -131,6 +132,7 @@ static uint8_t loop_stop(m_ctx_t *c) {
      * and last module's tried to call m_ctx_deregister(), it returned -EPERM.
      * Gracefully deregister it now.
      */
+    c->receiving = false;
     if (pthread_getspecific(key) == c && m_map_len(c->modules) == 0 && !(c->flags & M_CTX_PERSIST)) {
         m_ctx_deregister();
     }
@@ -230,6 +232,7 @@ static int recv_events(m_ctx_t *c, int timeout) {
     int err;
     int recved = 0;
 
+    c->receiving = true;
     errno = 0;
     const int nfds = poll_wait(&c->ppriv, timeout);
     err = errno; // store any errno happened in poll_wait
@@ -357,12 +360,13 @@ static int recv_events(m_ctx_t *c, int timeout) {
     }
 
     fetch_ms(&c->stats.last_time_called, NULL);
+    c->receiving = false;
     return recved;
 }
 
 static int m_ctx_loop_events(m_ctx_t *c, int max_events) {
     M_PARAM_ASSERT(max_events > 0);
-    M_LOG_ASSERT(c->state == M_CTX_IDLE, "Context already looping.", -EINVAL);
+    M_LOG_ASSERT(c->state == M_CTX_IDLE && !c->receiving, "Context already looping.", -EINVAL);
 
     int ret = loop_start(c, max_events);
     if (ret == 0) {
@@ -511,6 +515,8 @@ _public_ int m_ctx_fd(void) {
 _public_ int m_ctx_dispatch(void) {
     M_CTX_ASSERT();
     M_PARAM_ASSERT(c->state != M_CTX_ZOMBIE);
+    /* Callbacks run while a batch of events is handed out (or flushed at loop stop) cannot drive the loop themselves */
+    M_LOG_ASSERT(!c->receiving, "Context already dispatching.", -EINVAL);
 
     if (c->state == M_CTX_IDLE) {
         /* Ok, start now */
